@@ -108,6 +108,62 @@ def AtMostOnce (c : Chain) : Prop := ∀ i, c.calls i ≤ 1
 /-- "each invoked task completes exactly once" -/
 def ExactlyOnce (c : Chain) : Prop := ∀ i, i < c.invoked → c.calls i = 1
 
+/-! ### `Builder` (`NewBuilder(s).Next(t)….Final(f).Do()`), the object may be used for several chains
+
+Value level (used by the driver): `Next` appends, `Do` hands everything the builder holds to `Sche`; nothing is ever
+taken out of a builder, so a second `Do` starts a chain over the tasks so far plus the new ones. -/
+
+structure Builder (α : Type) where
+  tasks : List α := []
+
+def Builder.next {α : Type} (b : Builder α) (t : α) : Builder α := { b with tasks := b.tasks ++ [t] }
+/-- the task list `Do` passes to `Sche` -/
+def Builder.chainTasks {α : Type} (b : Builder α) : List α := b.tasks
+
+/-! Memory level: `b.tasks` is a Go slice (backing array, len, cap); `append` writes in place while `len < cap` and moves
+to a fresh array otherwise; `Sche` stores the caller's slice header as it is, so a started chain and the builder share a
+backing array.  `Props.C15.started_chain_keeps_its_tasks`: whatever is built afterwards, no started chain's task window
+changes (the builder's `len` never shrinks, so every in-place write lands at or beyond each started chain's `len`). -/
+
+structure Sl where
+  arr : Nat
+  len : Nat
+  cap : Nat
+  deriving DecidableEq, Repr
+
+structure BMem (α : Type) where
+  store : Nat → Nat → Option α := fun _ _ => none   -- backing array → index → cell
+  fresh : Nat := 1                                  -- next unused backing array (array 0: `make([]Task, 0)`)
+  b : Sl := ⟨0, 0, 0⟩                               -- `Builder.tasks`
+  chains : List Sl := []                            -- `Chain.tasks` of the chains started so far, newest first
+
+inductive BOp (α : Type) | next (t : α) | do_
+
+/-- Go `append(b.tasks, t)` / `Sche(b.sche, b.tasks, b.final)` -/
+def BMem.step {α : Type} (m : BMem α) : BOp α → BMem α
+  | .next t =>
+    if m.b.len < m.b.cap then
+      { m with store := fun a i => if a = m.b.arr ∧ i = m.b.len then some t else m.store a i,
+               b := { m.b with len := m.b.len + 1 } }
+    else
+      { m with store := fun a i => if a = m.fresh then (if i < m.b.len then m.store m.b.arr i else if i = m.b.len then some t else none)
+                                   else m.store a i,
+               fresh := m.fresh + 1,
+               b := ⟨m.fresh, m.b.len + 1, 2 * m.b.cap + 1⟩ }
+  | .do_ => { m with chains := m.b :: m.chains }
+
+def BMem.steps {α : Type} (m : BMem α) : List (BOp α) → BMem α
+  | [] => m
+  | o :: os => (m.step o).steps os
+
+/-- what a chain holding slice `c` sees as its task list -/
+def BMem.view {α : Type} (m : BMem α) (c : Sl) : List (Option α) := (List.range c.len).map (m.store c.arr)
+
+/-- the seeded variant of `Do` that "resets the builder for reuse": `b.tasks = b.tasks[:0]` after starting the chain -/
+def BMem.stepReset {α : Type} (m : BMem α) : BOp α → BMem α
+  | .do_ => { m with chains := m.b :: m.chains, b := { m.b with len := 0 } }
+  | o => m.step o
+
 /-! ### a chain on a scheduler that may be stopped (composition with `Sche.Post` on a closed channel)
 
 `callbackFunc` is `sche.Post(func(){ invokeCallback(err, args…) })`.  On a stopped
